@@ -38,7 +38,7 @@ var Meta = map[string]PropMeta{
 	"C01": {
 		Level:       "exploration",
 		Technique:   "deterministic simulation: real client and real daemon in one process over a seeded scheduled transport; seeded search over tree x prior destination x options x arrangement x transport personality; reference-model oracle on the final tree",
-		Rule:        "one evaluation = one generated scenario (source tree, prior destination state, option subset, source arguments, arrangement A1 pull-daemon/A2 push-daemon/A3 library pull+push/A4 CLI local copy, transport capacities/chunking/bias), run under 1-2 schedules; oracle: both ends return nil, every model-selected regular file equals the source bytes if the update rule says transfer, else is unchanged. Non-trivial = at least one selected file was transferred over an existing, non-empty, different destination file (delta basis in play); distinct = distinct scenario JSON",
+		Rule:        "one evaluation = one generated scenario (source tree, prior destination state, option subset, source arguments, arrangement A1 pull-daemon/A2 push-daemon/A3 library pull+push/A4 CLI local copy, transport capacities/chunking/bias), run under 1-2 schedules; oracle: both ends return nil, every model-selected regular file equals the source bytes if the update rule says transfer, else is unchanged. One scheduled run in five starts from a killed state: an identical earlier sync is stopped at a drawn scheduler step (all goroutines of both ends parked), the destination is copied as a kill of both processes would leave it (temporary files, half-made directories) and that copy is the prior state of the judged sync (probes kill_states*). Non-trivial = at least one selected file was transferred over an existing, non-empty, different destination file (delta basis in play); distinct = distinct scenario JSON",
 		Assumptions: []string{"reference model of selection/update rule (verif/sim/model) is correct", "A4 (CLI local copy) uses io.Pipe inside the code under test: its interleaving is chosen by the Go runtime, only hang detection is exact there", "file sizes up to 3 MiB quick / 12 MiB thorough"},
 		Real:        realCommon, Stub: stubCommon,
 		Quick:    q(3000, 40*time.Second),
